@@ -136,6 +136,10 @@ pub trait NodeMon {
     fn wants_null_moves(&self) -> u64 {
         0
     }
+    /// walk along the moves the library generates rather than the model's legal moves
+    fn follows_library(&self) -> bool {
+        false
+    }
 }
 
 pub fn move_features(p: &RPos, m: RMove, rep: &mut Report) {
@@ -226,6 +230,9 @@ pub struct WalkCfg {
     pub null_per_mille: u64,
     /// stop the playout if the library and the model stop agreeing (avoids cascades)
     pub stop_on_divergence: bool,
+    /// choose among the moves the *library* generates (C05: "any sequence of generated moves"); the model
+    /// then follows mechanically and may stop being meaningful - monitors must not rely on it
+    pub follow_library: bool,
 }
 
 /// One playout from `start`, calling `mon` at every node (including the nodes of the prelude).
@@ -259,7 +266,7 @@ pub fn playout(start: &Start, cfg: &WalkCfg, rng: &mut Rng, mon: &mut dyn NodeMo
             mon.node(&n, rep, rng);
         }
         nodes += 1;
-        if legal.is_empty() {
+        if legal.is_empty() && !cfg.follow_library {
             break;
         }
         // null move now and then
@@ -274,9 +281,19 @@ pub fn playout(start: &Start, cfg: &WalkCfg, rng: &mut Rng, mon: &mut dyn NodeMo
                 continue;
             }
         }
-        let m = if ply < start.prelude.len() { start.prelude[ply] } else { pick_move(rng, &p, &legal) };
+        let m = if ply < start.prelude.len() {
+            start.prelude[ply]
+        } else if cfg.follow_library {
+            let lms: Vec<RMove> = lib_moves(&b).into_iter().map(model_move).collect();
+            if lms.is_empty() {
+                break;
+            }
+            pick_move(rng, &p, &lms)
+        } else {
+            pick_move(rng, &p, &legal)
+        };
         let lm = lib_move(m);
-        if cfg.stop_on_divergence {
+        if cfg.stop_on_divergence && !cfg.follow_library {
             // only play moves both sides call legal
             if !b.legal(lm) {
                 rep.count("diverged_stop");
@@ -295,7 +312,7 @@ pub fn playout(start: &Start, cfg: &WalkCfg, rng: &mut Rng, mon: &mut dyn NodeMo
             out
         };
         let np = p.make(m);
-        if cfg.stop_on_divergence && !same_core(&read_board(&nb), &np) {
+        if cfg.stop_on_divergence && !cfg.follow_library && !same_core(&read_board(&nb), &np) {
             rep.count("diverged_stop");
             break;
         }
@@ -310,6 +327,11 @@ pub fn playout(start: &Start, cfg: &WalkCfg, rng: &mut Rng, mon: &mut dyn NodeMo
 
 /// Complete move tree to `depth` from `start` (after its prelude): every node is visited.
 pub fn tree(start: &Start, depth: usize, rng: &mut Rng, mon: &mut dyn NodeMon, rep: &mut Report) -> usize {
+    tree_opt(start, depth, false, rng, mon, rep)
+}
+
+/// `follow_library`: expand the moves the library generates instead of the model's legal moves
+pub fn tree_opt(start: &Start, depth: usize, follow_library: bool, rng: &mut Rng, mon: &mut dyn NodeMon, rep: &mut Report) -> usize {
     let mut b = match setup(start, rep) {
         Some(b) => b,
         None => return 0,
@@ -320,7 +342,7 @@ pub fn tree(start: &Start, depth: usize, rng: &mut Rng, mon: &mut dyn NodeMon, r
         b = b.make_move_new(lib_move(*m));
         p = p.make(*m);
     }
-    fn rec(b: &Board, p: &RPos, prev: Option<(&Board, &RPos, RMove)>, d: usize, ply: usize, tag: &'static str, rng: &mut Rng, mon: &mut dyn NodeMon, rep: &mut Report) -> usize {
+    fn rec(b: &Board, p: &RPos, prev: Option<(&Board, &RPos, RMove)>, d: usize, ply: usize, tag: &'static str, fl: bool, rng: &mut Rng, mon: &mut dyn NodeMon, rep: &mut Report) -> usize {
         let legal = p.legal_moves();
         node_features(p, &legal, rep);
         let n = Node { b, p, legal: &legal, ply, prev, after_null: false, tag, incremental: ply > 0 };
@@ -329,9 +351,10 @@ pub fn tree(start: &Start, depth: usize, rng: &mut Rng, mon: &mut dyn NodeMon, r
         if d == 0 {
             return cnt;
         }
-        for m in legal.iter() {
+        let expand: Vec<RMove> = if fl { lib_moves(b).into_iter().map(model_move).collect() } else { legal.clone() };
+        for m in expand.iter() {
             let lm = lib_move(*m);
-            if !b.legal(lm) {
+            if !fl && !b.legal(lm) {
                 rep.count("diverged_stop");
                 continue;
             }
@@ -345,15 +368,15 @@ pub fn tree(start: &Start, depth: usize, rng: &mut Rng, mon: &mut dyn NodeMon, r
                 out
             };
             let np = p.make(*m);
-            if !same_core(&read_board(&nb), &np) {
+            if !fl && !same_core(&read_board(&nb), &np) {
                 rep.count("diverged_stop");
                 continue;
             }
-            cnt += rec(&nb, &np, Some((b, p, *m)), d - 1, ply + 1, tag, rng, mon, rep);
+            cnt += rec(&nb, &np, Some((b, p, *m)), d - 1, ply + 1, tag, fl, rng, mon, rep);
         }
         cnt
     }
-    rec(&b, &p, None, depth, 0, start.tag, rng, mon, rep)
+    rec(&b, &p, None, depth, 0, start.tag, follow_library, rng, mon, rep)
 }
 
 /// The standard workload mix W1-W4 for position-walking monitors: returns a start for case `k`.
